@@ -2,7 +2,7 @@ SPECIFICATION Spec
 CONSTANTS
   Record = FALSE
   Scripts <- Scripts4
-  FaultChoices <- OneFault
+  FaultChoices <- Faults4
 
 INVARIANT EachOnce
 INVARIANT ReturnsAfterAll
